@@ -23,7 +23,7 @@ func TestSweep(t *testing.T) {
 	}
 	for _, sh := range shapes {
 		for _, tn := range names {
-			for _, entry := range []string{"sizes", "slice00", "channel0", "pool"} {
+			for _, entry := range []string{"sizes", "slice00", "channel0", "pool", "poolAfterGrowth"} {
 				Oracle.One(t, env, rec, "sweep", &Case{Entry: entry, T: tn, C: sh[0], L: sh[1], K: sh[2]})
 			}
 			for _, n := range []int{0, 1, 4} {
